@@ -322,7 +322,7 @@ func buildChain(items []chainItem, lastNext byte) (first byte, wire []byte, ok b
 func runC13(c *Ctx) error {
 	r := c.R
 	rng := c.Rng
-	r.Rule = "payload chains of domain messages with 1..4 unsupported payloads inserted (front, middle, end, several); every unsupported type code 1..32 and 49..255 for single " +
+	r.Rule = "payload chains of domain messages with 1..4 (now and then up to 64) unsupported payloads inserted (front, middle, end, several); every unsupported type code 1..32 and 49..255 for single " +
 		"insertions (exhaustive), body lengths 0..1024, both critical flag values, critical flag also set on implemented payloads; decoded as a chain and as a whole message; " +
 		"non-trivial = at least one supported payload next to the insertion; distinct by the chain"
 	if c.Replay != "" {
@@ -449,9 +449,25 @@ func runC13(c *Ctx) error {
 		for k := rng.Intn(5); k > 0; k-- {
 			items = append(items, genSup())
 		}
-		for k := rng.Range(1, 4); k > 0; k-- {
+		k0 := rng.Range(1, 4)
+		if i%6 == 5 { // now and then MANY insertions: nothing bounds how many payloads a receiver has to skip
+			k0 = rng.Pick([]int{5, 8, 9, 16, 17, 33, 64})
+		}
+		for k := k0; k > 0; k-- {
 			pos := rng.Intn(len(items) + 1)
 			u := genUnsup(unsup[rng.Intn(len(unsup))])
+			if k0 > 4 {
+				u.crit = false // (with many insertions one critical one is almost certain; it is added below now and then)
+				if len(u.body) > 64 {
+					u.body = u.body[:64]
+				}
+			}
+			items = append(items[:pos], append([]chainItem{u}, items[pos:]...)...)
+		}
+		if k0 > 4 && rng.Chance(1, 4) {
+			pos := rng.Intn(len(items) + 1)
+			u := genUnsup(unsup[rng.Intn(len(unsup))])
+			u.crit = true
 			items = append(items[:pos], append([]chainItem{u}, items[pos:]...)...)
 		}
 		if err := one(items, "several"); err != nil {
